@@ -19,6 +19,9 @@ extern "C" __attribute__((used)) const char* __ubsan_default_options()
     return "halt_on_error=1:exitcode=76:print_stacktrace=0";
 }
 
+// default for the guarded scheduling-point hook of the library (schedsim provides the real one)
+extern "C" __attribute__((weak)) void foonathan_memory_verif_yield(const char*) noexcept {}
+
 namespace sim
 {
     namespace
@@ -154,6 +157,14 @@ namespace sim
                 print_result(i, seed, r);
                 if (r.violated)
                     ++bad;
+                if (r.fatal)
+                {
+                    // this process holds parked threads it can never resume: report and leave, the driver
+                    // continues with the next index in a fresh process
+                    stats().print(stdout);
+                    std::fflush(stdout);
+                    _exit(0);
+                }
             }
             stats().print(stdout);
             std::printf("END\n");
